@@ -63,6 +63,12 @@ def encPyErr : PyErr → String
   | .runtimeError => "RuntimeError"
 
 def handlers : List (String × (List String → String)) := [
+  ("c14_text_measure", fun a => match a with   -- Text(s).__rich_measure__: ok:<min>,<max> | err:Other:<Class>
+    | [s] =>
+      match textRichMeasureE pyIsSpace pyIsSpace (charWidthT Gen.cellWidths) (Text.new Variant.repaired (decStr s) (0 : Nat)).plain with
+      | .ok m => "ok:" ++ toString m.minimum ++ "," ++ toString m.maximum
+      | .error e => "err:Other:" ++ encPyErr e
+    | _ => "bad-args"),
   ("c14_print_plain", fun a => match a with
     | [w, ov, nw, crop, sep, e, s] =>
       match decOverflow ov with
